@@ -11,7 +11,11 @@ Flows (each case goes through the real steps AND the model):
               output is read back with the plain loader of the format.
   jsonprint   Lean printer vs json.dumps(indent=2, ensure_ascii=False), byte for byte.
   jsonparse   Lean parser vs json.loads on printed, re-spaced, escaped and corrupted texts.
+  session     2-4 operations (write->fetch/parser round trip, read of a given source text, fileformat over a list of
+              given source texts) in ONE process, and each operation again alone in a FRESH process; the model's
+              `runSession` on the same session.
 Monitors (judged on the implementation alone, pypyr's own formatter as oracle for "formatted value"):
+  every operation of a session observes what it observes alone in a fresh process;
   fetched value == formatted payload (typed equality, dict order ignored);
   parse(fileformat output) == formatter applied to parse(source).
 """
@@ -19,6 +23,7 @@ from __future__ import annotations
 
 import json
 import os
+import re
 import shutil
 import tempfile
 
@@ -29,7 +34,10 @@ from .. import impl_c16 as I
 LEAN_MODULES = ['Props.C16']
 TRUSTED = [
     'harness/impl_c16.py (step runners, plain loaders, typed/order-insensitive canonicaliser)',
-    'harness/props/c16.py (payload generator, JSON text mutator)',
+    'harness/props/c16.py (payload generator, JSON text mutator, session generator)',
+    'harness/impl_c16.py session helper: a pristine interpreter (`python -m harness.impl_c16`) that has only imported the '
+    'tree under test; every session and every single operation runs in a forked child of it (fresh process = fork of '
+    'the pristine helper), with a time limit',
     'CPython json; ruamel.yaml; tomli_w/tomllib (as loaders of the files the steps wrote)',
 ]
 ASSUMPTIONS = [
@@ -41,8 +49,19 @@ ASSUMPTIONS = [
     'formatting expressions are those of the basic formatter model ({key}, {{, }}); strings with lone surrogates, '
     'non-string mapping keys merged at context root, YAML anchors/tags/dates/binary, TOML datetimes are outside '
     'the modelled domain',
-    'text encodings are exercised (utf-8, utf-16, latin-1 where every character is encodable) but not modelled: '
-    'the model works on code points',
+    'text encodings: the model works on code points; a stored file carries the NAME of the encoding its bytes are in '
+    '(`Stored`), reading with another name is an error in the model - used on the positive side only (the output of '
+    'fileformat{json,yaml} is in the OUT encoding on every route); utf-8/utf-16/utf-32/latin-1 exercised where every '
+    'character is encodable; toml files are binary (no encoding options)',
+    'STATELESSNESS: in the model a codec is a pair of functions (`Codec.enc`/`Codec.dec`) and `runSession` threads '
+    'nothing but the files from one operation to the next, so `RoundTrips` - stated per call - is meaningful. The real '
+    'loaders are objects (ruamel.yaml keeps the version of the last %YAML directive on the YAML() instance): that the '
+    'steps use them statelessly is an assumption about the implementation, CHECKED by sessions (2-4 operations in one '
+    'process; every operation must observe what it observes alone in a fresh process, and the per-operation monitors '
+    'must hold inside the session). Known failure on the tree as it is: fileFormatYaml shares one round-trip parser '
+    'among the files of one `in` list',
+    'YAML directives (%YAML 1.1 / 1.2, %TAG), tags and anchors appear in session SOURCE files only; such a file stands in '
+    'the model for the document the plain safe loader (a fresh instance) reads from it under its own directive',
 ]
 
 CTXV = {'k1': 'v1', 'k2': 42, 'k3': [1, 'two'], 'k4': {'a': 'b'}, 'k5': 'true', 'k6': ' spaced ', 'kf': 1.5,
@@ -181,11 +200,25 @@ def writefetch_case(fmt, payload, variant, encoding=None):
     return {'flow': 'writefetch', 'format': fmt, 'payload': enc(payload), 'variant': variant, 'encoding': encoding}
 
 
-def fileformat_case(fmt, doc, inplace, encoding=None):
-    return {'flow': 'fileformat', 'format': fmt, 'doc': enc(doc), 'inplace': inplace, 'encoding': encoding}
+def fileformat_case(fmt, doc, inplace, encoding=None, encopts=None, route=None):
+    c = {'flow': 'fileformat', 'format': fmt, 'doc': enc(doc), 'inplace': inplace, 'encoding': encoding}
+    if encopts is not None:
+        # {encoding?, encodingIn?, encodingOut?} x route inplace | out | same | empty
+        c['encopts'] = encopts
+        c['route'] = route or ('inplace' if inplace else 'out')
+        c['inplace'] = c['route'] != 'out'
+    return c
 
 
 VARIANTS = ['key', 'root', 'emptykey', 'string', 'whole']
+ENCOPTS = [{'encodingIn': 'utf-16', 'encodingOut': 'utf-8'}, {'encodingIn': 'utf-8', 'encodingOut': 'utf-16'},
+           {'encodingIn': 'utf-16'}, {'encodingOut': 'utf-16'}, {'encoding': 'utf-16', 'encodingOut': 'utf-8'},
+           {'encoding': 'utf-8', 'encodingIn': 'utf-16'}, {'encodingIn': 'latin-1', 'encodingOut': 'utf-8'},
+           {'encodingIn': 'utf-8', 'encodingOut': 'latin-1'}, {'encodingIn': 'utf-32', 'encodingOut': 'utf-16'},
+           {'encoding': 'utf-16'}, {'encoding': 'latin-1'}, {'encoding': 'utf-32', 'encodingIn': 'utf-8', 'encodingOut': 'utf-16'}]
+ROUTES = ['inplace', 'out', 'same', 'empty']
+ENC_DOCS = [{'título': 'Señor {k1}', 'k{k1}-größe': [1, 2.5, True, 'naïve {k1}', 'ünï'], 'nested': {'e': 'é', 'n': 42, 'plain': 'true'}},
+            {'emoji': '😀 {ku}', '日本': ['語', {'k': 'é→{k1}'}], 'n': 1}]
 
 
 def model_ctx(fmt, case):
@@ -350,14 +383,24 @@ def run_fileformat(drv, case):
     ctx = dict(CTXV)
     if fmt == 'toml':
         del ctx['kn']
+    encopts, route = case.get('encopts'), case.get('route')
     rec = {'case': case, 'counts': ['flow:fileformat', 'fmt:' + fmt, 'inplace:' + str(case['inplace']),
                                     'enc:' + str(case.get('encoding'))]}
+    req = {}
+    if encopts is not None:
+        e_in, e_out = I.enc_in_out(encopts)
+        rec['counts'] += ['route:' + route, 'encopts:' + '+'.join(sorted(encopts)) + (':differ' if e_in != e_out else ':same')]
+        req = {'enc': encopts, 'out': {'inplace': None, 'out': 'out/res', 'same': 'in', 'empty': ''}[route]}
     try:
-        m = drv.ask('codec.fileformat', format=fmt, ctx=enc(ctx), doc=case['doc'])
+        m = drv.ask('codec.fileformat', format=fmt, ctx=enc(ctx), doc=case['doc'], **req)
     except common.Reject as e:
         rec['reject'] = str(e)
         rec['counts'].append('rejected')
         return rec
+    if encopts is not None and 'ok' in m:
+        # the model's file-level result: stored in the OUT encoding at the target
+        if m.get('enc') != I.enc_in_out(encopts)[1] or m.get('target') != ('out/res' if route == 'out' else 'in'):
+            rec['mismatch'] = f"model stores the result as {m.get('enc')} at {m.get('target')}"
     model = {'ok': I.sort_wire(m['ok'])} if 'ok' in m else {'err': err_class(m['err']['name'])}
     I.clean_dir()
     try:
@@ -382,10 +425,12 @@ def run_fileformat(drv, case):
         rec['counts'].append('codec-hypothesis-false-on-source')
         rec['hypothesis'] = {'format': fmt, 'doc': case['doc'], 'loaded': enc(src_loaded)}
         return rec
-    o, out_text = I.run_fileformat(fmt, ctx, src_text, case['inplace'], case.get('encoding'))
+    o, out_text = I.run_fileformat(fmt, ctx, src_text, case['inplace'], case.get('encoding'), encopts, route)
     if 'err' in o:
         impl = {'err': err_class(o['err'])}
         rec['impl_detail'] = o
+    elif out_text is None:
+        impl = {'unreadable': o.get('undecodable')}
     else:
         try:
             impl = {'ok': I.sort_wire(enc(I.plain(I.load(fmt, out_text))))}
@@ -464,12 +509,351 @@ def run_jsonparse(drv, case):
     return rec
 
 
+# --------------------------------------------------------------------------
+# sessions: 2-4 file operations in ONE process (the property is stated per round trip; the model's codec is a
+# pure function of the text — this checks that the real steps use their loaders statelessly)
+# --------------------------------------------------------------------------
+
+RAW_YAML = {
+    'legacy11': '%YAML 1.1\n---\nname: legacy-settings\nretries: 3\n',
+    'v11-lookalikes': '%YAML 1.1\n---\nflag: yes\nswitch: off\nat: 12:30:00\noct: 0777\n',
+    'v12': '%YAML 1.2\n---\nname: modern\nflag: yes\nat: 12:30:00\n',
+    'v12-then-plain': '%YAML 1.2\n---\nn: 0o17\nflag: on\n',
+    'tags': 'a: !!str 123\nb: !!int "7"\nc: !!float 1\nd: !!bool "true"\n',
+    'tag-directive': '%TAG !e! tag:example.com,2000:app/\n---\nk: v\nn: 1\n',
+    'both-directives': '%YAML 1.1\n%TAG !e! tag:example.com,2000:app/\n---\nk: no\n',
+    'anchors': 'base: &b {x: 1, y: [a, b]}\nuse: *b\nmerged:\n  <<: *b\n  z: 3\n',
+    'plain-lookalikes': 'k: x{k1}\nlist: [yes, no, 12:30:00, 0777, on]\nflag: yes\ny: n\n',
+    'plain': 'a: 1\nb: [x, y]\nc:\n  d: e{k1}\n',
+    'two-docs-marker': '---\nonly: doc\n...\n',
+}
+RAW_JSON = {'obj': '{"a": "x{k1}", "yes": "no", "n": [1, 2.5, true, null]}', 'nested': '{"k": {"yes": ["on", "off"]}}'}
+RAW_TOML = {'tbl': 'a = "x{k1}"\nyes = "no"\n[t]\non = "off"\nn = 1\n'}
+LOOKALIKES = ['yes', 'no', 'on', 'off', 'y', 'n', 'Yes', 'NO', 'On', 'OFF', 'Y', 'N', 'true', 'false', '12:30:00', '1:00',
+              '0777', '0o17', '1_000', '0b101', '0x1F', '+.inf', '.NaN', '~', 'null', '1e3', '2001-01-01', '<<', '=']
+SESSION_CTX = {'k1': 'v1', 'k2': 42}
+
+
+def lookalike_payload(rng=None):
+    if rng is None:
+        return {'answer': 'yes', 'switch': 'on', 'other': 'off', 'short': 'n', 'at': '12:30:00', 'oct': '0777',
+                'greeting': 'hello {k1}', 'no': [1, 2.5, True, None], 'nested': ['y', {'flag': 'Yes', 'count': 3}]}
+    vals = rng.sample(LOOKALIKES, 6)
+    keys = rng.sample(LOOKALIKES, 3)
+    return {'v': vals[:3], keys[0]: vals[3], keys[1]: {keys[2]: [vals[4], {'deep': vals[5]}]}, 'f': 'x{k1}', 'i': 7}
+
+
+def op_roundtrip(fmt, payload, reader):
+    if fmt == 'toml':
+        payload = _no_none(payload)
+    return {'kind': 'roundtrip', 'format': fmt, 'payload': enc(payload), 'ctx': enc(SESSION_CTX), 'reader': reader,
+            'name': 'o.' + fmt}
+
+
+def _no_none(v):
+    if isinstance(v, dict):
+        return {k: _no_none(x) for k, x in v.items() if x is not None}
+    if isinstance(v, list):
+        return [_no_none(x) for x in v if x is not None]
+    return v
+
+
+def op_fetchraw(fmt, text, reader):
+    return {'kind': 'fetchraw', 'format': fmt, 'text': text, 'reader': reader, 'name': 'r.' + fmt}
+
+
+def op_formatraw(fmt, texts, route='inplace'):
+    return {'kind': 'formatraw', 'format': fmt, 'files': [[f'f{i}.{fmt}', t] for i, t in enumerate(texts)],
+            'ctx': enc(SESSION_CTX), 'route': route, 'aslist': True}
+
+
+def session_case(ops, tag):
+    return {'flow': 'session', 'format': ops[-1]['format'], 'ops': ops, 'tag': tag}
+
+
+def directed_sessions():
+    out = []
+    look = lookalike_payload()
+    for name, text in RAW_YAML.items():
+        for reader in ('fetch', 'parser'):
+            # a file with directives / tags / anchors is read, then look-alikes are round-tripped
+            out.append(session_case([op_fetchraw('yaml', text, reader), op_roundtrip('yaml', look, 'fetch'),
+                                     op_roundtrip('yaml', look, 'parser')], f'read-{name}-then-roundtrip'))
+        out.append(session_case([op_formatraw('yaml', [text]), op_roundtrip('yaml', look, 'fetch'),
+                                 op_fetchraw('yaml', RAW_YAML['plain-lookalikes'], 'fetch')], f'format-{name}-then-roundtrip'))
+        # several in files in one fileformat step: a directive/tag file first, look-alikes after — and reversed
+        out.append(session_case([op_formatraw('yaml', [text, RAW_YAML['plain-lookalikes'], RAW_YAML['plain']])],
+                                f'format-list-{name}-first'))
+        out.append(session_case([op_formatraw('yaml', [RAW_YAML['plain-lookalikes'], text], 'outdir'),
+                                 op_formatraw('yaml', [RAW_YAML['plain-lookalikes']])], f'format-list-{name}-last'))
+    out.append(session_case([op_roundtrip('yaml', look, 'fetch'), op_fetchraw('yaml', RAW_YAML['legacy11'], 'fetch'),
+                             op_roundtrip('yaml', look, 'fetch'), op_roundtrip('yaml', look, 'parser')], 'rt-11-rt-rt'))
+    out.append(session_case([op_fetchraw('yaml', RAW_YAML['legacy11'], 'parser'), op_fetchraw('yaml', RAW_YAML['v12'], 'fetch'),
+                             op_roundtrip('yaml', look, 'fetch')], '11-12-rt'))
+    out.append(session_case([op_fetchraw('yaml', RAW_YAML['v12'], 'fetch'), op_fetchraw('yaml', RAW_YAML['legacy11'], 'fetch'),
+                             op_fetchraw('yaml', RAW_YAML['plain-lookalikes'], 'parser'), op_roundtrip('yaml', look, 'parser')],
+                            '12-11-plain-rt'))
+    for name, text in RAW_JSON.items():
+        out.append(session_case([op_fetchraw('json', text, 'fetch'), op_formatraw('json', [text, RAW_JSON['obj']]),
+                                 op_roundtrip('json', look, 'fetch'), op_roundtrip('json', look, 'parser')], f'json-{name}'))
+    for name, text in RAW_TOML.items():
+        out.append(session_case([op_fetchraw('toml', text, 'fetch'), op_formatraw('toml', [text, text]),
+                                 op_roundtrip('toml', look, 'fetch'), op_roundtrip('toml', look, 'parser')], f'toml-{name}'))
+    # formats interleaved
+    out.append(session_case([op_fetchraw('yaml', RAW_YAML['v11-lookalikes'], 'fetch'), op_roundtrip('json', look, 'fetch'),
+                             op_roundtrip('toml', look, 'fetch'), op_roundtrip('yaml', look, 'fetch')], 'mixed-formats'))
+    return out
+
+
+def random_session(rng):
+    n = rng.choice([2, 3, 3, 4])
+    ops = []
+    for i in range(n):
+        fmt = rng.choice(['yaml', 'yaml', 'yaml', 'json', 'toml'])
+        raws = {'yaml': RAW_YAML, 'json': RAW_JSON, 'toml': RAW_TOML}[fmt]
+        r = rng.random()
+        if i == n - 1 or r < 0.4:
+            ops.append(op_roundtrip(fmt, lookalike_payload(rng), rng.choice(['fetch', 'parser'])))
+        elif r < 0.75:
+            ops.append(op_fetchraw(fmt, rng.choice(list(raws.values())), rng.choice(['fetch', 'parser'])))
+        else:
+            k = rng.choice([1, 2, 3])
+            ops.append(op_formatraw(fmt, [rng.choice(list(raws.values())) for _ in range(k)],
+                                    rng.choice(['inplace', 'outdir'])))
+    return session_case(ops, 'random')
+
+
+_YAML_DIRECTIVE = re.compile(r'^%YAML\s+(\d+\.\d+)', re.M)
+
+
+def yaml_version(text):
+    m = _YAML_DIRECTIVE.search(text.split('\n---', 1)[0]) if text.lstrip().startswith('%') else None
+    return m.group(1) if m else None
+
+
+def session_model(drv, ops):
+    """The session through the model's `runSession` (ideal codecs): per op the expected observation in the
+    harness's terms, or None where the op is outside the model (file context parser as reader, documents that
+    are not plain trees). Raises Reject when the driver declines."""
+    files, mops, where = [], [], []
+    for i, op in enumerate(ops):
+        fmt, pre = op['format'], f's{i}/'
+        fk, wk = I.FETCH[fmt][1], I.WRITE[fmt][1]
+        if op['kind'] == 'roundtrip':
+            ctx = dict(dec(op['ctx']))
+            ctx[wk] = {'path': pre + op['name'], 'payload': dec(op['payload'])}
+            mops.append({'op': 'write', 'format': fmt, 'ctx': enc(ctx)})
+            mops.append({'op': 'fetch', 'format': fmt, 'ctx': enc({fk: {'path': pre + op['name'], 'key': 'out'}})})
+            where.append(('roundtrip', len(mops) - 2))
+        elif op['kind'] == 'fetchraw':
+            files.append([pre + op['name'], enc(I.plain(I.load(fmt, op['text'])))])
+            mops.append({'op': 'fetch', 'format': fmt, 'ctx': enc({fk: {'path': pre + op['name'], 'key': 'out'}})})
+            where.append(('fetchraw', len(mops) - 1))
+        else:
+            first = len(mops)
+            for name, text in op['files']:
+                files.append([pre + name, enc(I.plain(I.load(fmt, text)))])
+                mops.append({'op': 'format', 'format': fmt, 'ctx': op['ctx'], 'in': pre + name,
+                             'out': (pre + 'res/' + name) if op.get('route') == 'outdir' else None})
+            where.append(('formatraw', first))
+    m = drv.ask('codec.session', files=files, ops=mops)
+    mfiles = dict((k, v) for k, v in m['files'])
+    out = []
+    for (kind, at), (i, op) in zip(where, enumerate(ops)):
+        pre = f's{i}/'
+        if kind in ('roundtrip', 'fetchraw'):
+            f = m['obs'][at + 1] if kind == 'roundtrip' else m['obs'][at]
+            if kind == 'roundtrip' and m['obs'][at] != 'wrote':
+                out.append({'write': 'err'})
+                continue
+            if isinstance(f, dict) and 'fetched' in f:
+                got = dict((json.dumps(k), v) for k, v in f['fetched']['d']).get('"out"', {'missing': True})
+                out.append({'read': {'ok': I.sort_wire(got)}})
+            else:
+                out.append({'read': 'err'})
+        else:
+            docs = []
+            for k, (name, _t) in enumerate(op['files']):
+                if m['obs'][at + k] != 'formatted':
+                    docs = 'err'
+                    break
+                tgt = (pre + 'res/' + name) if op.get('route') == 'outdir' else pre + name
+                docs.append([name, I.sort_wire(mfiles[tgt])])
+            out.append({'format': docs})
+    return out
+
+
+def impl_view(op, obs):
+    """The implementation's observation of one op in the terms of `session_model` (documents parsed with the
+    plain loader of the format)."""
+    if not isinstance(obs, dict) or 'crashed' in obs or 'timeout' in obs:
+        return {'abnormal': obs}
+    fmt = op['format']
+    if op['kind'] in ('roundtrip', 'fetchraw'):
+        if op['kind'] == 'roundtrip' and obs.get('write') != 'ok':
+            return {'write': 'err'}
+        r = obs.get('read', {})
+        return {'read': {'ok': I.sort_wire(r['ok'])}} if 'ok' in r else {'read': 'err'}
+    if obs.get('format') != 'ok':
+        return {'format': 'err'}
+    docs = []
+    for name, text in obs['outs']:
+        try:
+            docs.append([name, I.sort_wire(enc(I.plain(I.load(fmt, text))))])
+        except Exception as e:
+            docs.append([name, {'unreadable': type(e).__name__}])
+    return {'format': docs}
+
+
+def run_session(drv, case):
+    ops = case['ops']
+    rec = {'case': case, 'counts': ['flow:session', 'session-len:%d' % len(ops), 'session:' + case.get('tag', '').split('-')[0]]}
+    z = _worker.get('zygote')
+    if z is None:
+        z = _worker['zygote'] = I.Zygote()
+    global _timeouts
+    r = z.session(ops, timeout=20 if _timeouts < 2 else 5)
+    if 'timeout' in json.dumps(r)[:100000] and any(isinstance(o, dict) and 'timeout' in o
+                                                  for o in ([r['insession']] if isinstance(r.get('insession'), dict) else r.get('insession', [])) + r.get('fresh', [])):
+        _timeouts += 1
+    if 'zygote-error' in r:
+        raise common.Infra('C16 session helper: ' + r['zygote-error'])
+    ins, fresh = r['insession'], r['fresh']
+    if not isinstance(ins, list):          # the whole session crashed / timed out
+        ins = [ins] * len(ops)
+    problems = []
+    # ---- M1: every operation observes in the session what it observes in a fresh process
+    for i, op in enumerate(ops):
+        rec['counts'].append('sop:' + op['kind'] + ':' + op['format'])
+        if ins[i] != fresh[i]:
+            a, b = impl_view(op, fresh[i]), impl_view(op, ins[i])
+            problems.append({'clause': 'history-dependent', 'op': i, 'kind': op['kind'], 'format': op['format'],
+                             'reader': op.get('reader'), 'want': a, 'got': b,
+                             'earlier': [f"{o['kind']}:{o['format']}:yaml-version={yaml_version(o.get('text', '') or '')}"
+                                         for o in ops[:i]]})
+    # ---- M2 / M3: the property itself, op by op, on the in-session observations
+    leak_ops = set()
+    for i, op in enumerate(ops):
+        fmt, v = op['format'], impl_view(op, ins[i])
+        if 'abnormal' in v:
+            problems.append({'clause': 'abnormal-end', 'op': i, 'kind': op['kind'], 'format': fmt, 'got': v['abnormal']})
+            continue
+        if op['kind'] == 'roundtrip':
+            want = I.real_format(dec(op['ctx']), dec(op['payload']))
+            if 'ok' not in want:
+                continue
+            w = I.sort_wire(want['ok'])
+            if v != {'read': {'ok': w}}:
+                problems.append({'clause': 'roundtrip', 'op': i, 'kind': 'roundtrip', 'format': fmt,
+                                 'reader': op['reader'], 'want': w, 'got': v})
+        elif op['kind'] == 'formatraw':
+            if v.get('format') == 'err':
+                problems.append({'clause': 'format-raised', 'op': i, 'kind': 'formatraw', 'format': fmt,
+                                 'got': ins[i].get('format')})
+                continue
+            seen_versions = []
+            for (name, text), (_n, got) in zip(op['files'], v['format']):
+                src = I.plain(I.load(fmt, text))
+                want = I.real_format(dec(op['ctx']), src)
+                ver = yaml_version(text) if fmt == 'yaml' else None
+                if 'ok' in want and got != I.sort_wire(want['ok']):
+                    # a %YAML directive in an EARLIER file of the same `in` list, another version than this file's
+                    leak = fmt == 'yaml' and any(x is not None and x != (ver or '1.2') for x in seen_versions)
+                    if leak:
+                        leak_ops.add(i)
+                    problems.append({'clause': 'fileformat', 'op': i, 'kind': 'formatraw', 'format': fmt, 'file': name,
+                                     'want': I.sort_wire(want['ok']), 'got': got,
+                                     'cause': 'yaml-version-directive-of-earlier-in-file-applied' if leak else None})
+                seen_versions.append(ver)
+    rec['session_problems'] = problems
+    # ---- the model's runSession on the same session
+    try:
+        mv = session_model(drv, ops)
+        iv = []
+        for op, o in zip(ops, ins):
+            x = impl_view(op, o)
+            iv.append(None if op.get('reader') == 'parser' else x)
+        mv = [None if op.get('reader') == 'parser' else x for op, x in zip(ops, mv)]
+        # ops whose difference is the (separately reported) directive leak are not a modelling difference
+        for i in leak_ops:
+            mv[i] = iv[i] = 'known-directive-leak'
+        rec['model'], rec['impl'] = {'session': mv}, {'session': iv}
+        hyp_ok = True
+        for op in ops:
+            if op['kind'] == 'roundtrip' and op['format'] != 'json':
+                want = I.real_format(dec(op['ctx']), dec(op['payload']))
+                if 'ok' in want and I.third_party_roundtrip(op['format'], dec(want['ok'])) is False:
+                    hyp_ok = False
+        if mv != iv and hyp_ok:
+            rec['mismatch'] = 'session observations differ from runSession'
+        rec['counts'].append('session-modelled')
+    except common.Reject as e:
+        rec['counts'].append('session-model-rejected')
+        rec['session_reject'] = str(e)
+    except Exception as e:       # a raw document the plain loader cannot read etc.: monitors only
+        rec['counts'].append('session-model-skipped:' + type(e).__name__)
+    return rec
+
+
 RUNNERS = {'writefetch': run_writefetch, 'fileformat': run_fileformat, 'jsonprint': run_jsonprint,
-           'jsonparse': run_jsonparse}
+           'jsonparse': run_jsonparse, 'session': run_session}
 
 
 def run_case(drv, case):
     return RUNNERS[case['flow']](drv, case)
+
+
+CASE_TIMEOUT = 30
+_timeouts = 0       # per harness process: after 2 the limit drops to 5 s, after 5 the remaining cases are skipped
+
+
+class CaseTimeout(BaseException):
+    """Raised by SIGALRM in the process running a case: not an `Exception`, so no handler of the tree under
+    test can swallow it."""
+
+
+import contextlib
+import signal
+
+
+@contextlib.contextmanager
+def time_limit(sec):
+    def on_alarm(_sig, _frm):
+        raise CaseTimeout(f'no result within {sec} s')
+    try:
+        old = signal.signal(signal.SIGALRM, on_alarm)
+    except ValueError:
+        yield
+        return
+    signal.alarm(sec)
+    try:
+        yield
+    finally:
+        signal.alarm(0)
+        signal.signal(signal.SIGALRM, old)
+
+
+def guarded_case(drv, case):
+    global _timeouts
+    if _timeouts >= 5:
+        return {'case': case, 'counts': ['skipped-after-timeouts'], 'skipped': True}
+    try:
+        with time_limit((CASE_TIMEOUT if _timeouts < 2 else 5) * (8 if case.get('flow') == 'session' else 1)):
+            return run_case(drv, case)
+    except (common.Infra, KeyboardInterrupt):
+        raise
+    except CaseTimeout as e:
+        _timeouts += 1
+        try:                     # a request may be in flight: start the model driver afresh
+            drv.close()
+            drv.__init__()
+        except Exception:
+            pass
+        return {'case': case, 'counts': ['case-timeout'], 'timeout': str(e)}
+    except BaseException as e:   # noqa: BLE001
+        import traceback
+        return {'case': case, 'counts': ['harness-error'], 'model': None, 'impl': None,
+                'mismatch': f'harness error: {type(e).__name__}: {e} @ ' + traceback.format_exc()[-700:]}
 
 
 # --------------------------------------------------------------------------
@@ -546,17 +930,17 @@ def _init_worker():
 def _run_worker(case):
     if 'drv' not in _worker:
         _init_worker()
-    try:
-        return run_case(_worker['drv'], case)
-    except common.Infra:
-        raise
-    except Exception as e:
-        import traceback
-        return {'case': case, 'counts': ['harness-error'], 'model': None, 'impl': None,
-                'mismatch': f'harness error: {type(e).__name__}: {e} @ ' + traceback.format_exc()[-700:]}
+    return guarded_case(_worker['drv'], case)
+
+
+def _close_zygote():
+    z = _worker.pop('zygote', None)
+    if z is not None:
+        z.close()
 
 
 def _cleanup_worker(_):
+    _close_zygote()
     d = _worker.get('dir')
     if d:
         os.chdir('/')
@@ -570,18 +954,10 @@ def run_all(env, cases, workers):
         d = tempfile.mkdtemp(prefix='verif-c16-')
         os.chdir(d)
         try:
-            out = []
-            for c in cases:
-                try:
-                    out.append(run_case(env.driver, c))
-                except common.Infra:
-                    raise
-                except Exception as e:
-                    import traceback
-                    out.append({'case': c, 'counts': ['harness-error'], 'model': None, 'impl': None,
-                                'mismatch': f'harness error: {type(e).__name__}: {e} @ ' + traceback.format_exc()[-700:]})
+            out = [guarded_case(env.driver, c) for c in cases]
             return out
         finally:
+            _close_zygote()
             os.chdir(cwd)
             shutil.rmtree(d, ignore_errors=True)
     import multiprocessing as mp
@@ -649,6 +1025,8 @@ def absorb(res, rec):
     case = rec['case']
     for c in rec.get('counts', []):
         res.count(c)
+    if rec.get('skipped'):
+        return
     if rec.get('hypothesis'):
         res.count('third-party-codec-non-roundtrip:' + case['format'])
         res.extra.setdefault('codec_hypothesis_failures', [])
@@ -658,8 +1036,39 @@ def absorb(res, rec):
     if 'reject' in rec:
         return
     res.case(case)
+    if rec.get('timeout'):
+        res.violation(case, f"{case['flow']} {case.get('format')}: the steps did not return: {rec['timeout']}",
+                      signature={'flow': case['flow'], 'format': case.get('format'), 'cause': 'does-not-terminate'},
+                      impl={'end': 'timeout'})
+        return
     if 'mismatch' in rec:
         res.mismatch(case, rec.get('model'), rec.get('impl'), rec['mismatch'])
+    for pr in (rec.get('session_problems') or [])[:3]:
+        tags = [f"{o['kind']}:{o['format']}" + (':' + o['reader'] if o.get('reader') else '') for o in case['ops']]
+        where = f"session {tags}, operation {pr['op']} ({pr['kind']} {pr['format']}" + \
+                (f", read by the {'file context parser' if pr.get('reader') == 'parser' else 'fetch step'}" if pr.get('reader') else '') + ')'
+        if pr['clause'] == 'history-dependent':
+            detail = (f"{where}: in the session it observed {json.dumps(pr['got'])[:300]}, the same operation in a fresh "
+                      f"process observes {json.dumps(pr['want'])[:300]}; earlier operations: {pr['earlier']}")
+            sig = {'flow': 'session', 'format': pr['format'], 'cause': 'result-depends-on-earlier-operations',
+                   'op': pr['kind'] + ('/' + pr['reader'] if pr.get('reader') else '')}
+        elif pr['clause'] in ('abnormal-end', 'format-raised'):
+            detail = f"{where}: ended abnormally: {json.dumps(pr['got'])[:300]}"
+            sig = {'flow': 'session', 'format': pr['format'], 'cause': pr['clause'], 'op': pr['kind']}
+        else:
+            want = pr['want']
+            got = pr['got']['read'].get('ok') if pr['clause'] == 'roundtrip' and isinstance(pr['got'].get('read'), dict) else pr['got']
+            if pr['clause'] == 'roundtrip' and not isinstance(pr['got'].get('read'), dict):
+                what, a, b = 'read-raised', want, pr['got']
+            else:
+                what, a, b = first_diff(want, got)
+            cause = pr.get('cause') or cause_of(what, a)
+            detail = (f"{where}" + (f", file {pr['file']}" if pr.get('file') else '') + ': ' +
+                      ('value read back differs from the formatted payload' if pr['clause'] == 'roundtrip'
+                       else 'output document differs from the source with every string node formatted') +
+                      f" at a {what} node: wanted {json.dumps(a)[:160]}, got {json.dumps(b)[:160]}")
+            sig = {'flow': 'session', 'format': pr['format'], 'cause': cause, 'op': pr['kind']}
+        res.violation(case, detail, signature=sig, impl={'problem': pr})
     mon = rec.get('monitor')
     if mon is not None and not mon['holds']:
         flow = case['flow']
@@ -679,8 +1088,12 @@ def absorb(res, rec):
                       ('value read back differs from the formatted payload' if flow == 'writefetch'
                        else 'output document differs from the source with every string node formatted') +
                       f" at a {what} node: wanted {json.dumps(a)[:160]}, got {json.dumps(b)[:160]}")
-        res.violation(case, detail,
-                      signature={'flow': flow, 'format': case['format'], 'cause': cause},
+        sig = {'flow': flow, 'format': case['format'], 'cause': cause}
+        if case.get('encopts') is not None:
+            e_in, e_out = I.enc_in_out(case['encopts'])
+            sig.update(route=case['route'], encodings=f'in={e_in},out={e_out}')
+            detail += f" [route {case['route']}, options {case['encopts']}: read as {e_in}, to be written as {e_out}]"
+        res.violation(case, detail, signature=sig,
                       impl={'want': mon['want'], 'got': mon['got'], 'via': mon.get('via')})
 
 
@@ -720,7 +1133,26 @@ def build_cases(env):
                         continue
                     cases.append(writefetch_case(fmt, p, 'key', e))
                     cases.append(fileformat_case(fmt, p, True, e))
+    # ---- encoding options x route, for the ObjectRewriter steps that take encodings (json, yaml)
+    for fmt in ('json', 'yaml'):
+        for eo in ENCOPTS:
+            for route in ROUTES:
+                for d in ENC_DOCS:
+                    if all(not has_char_outside(d, e) for e in I.enc_in_out(eo)):
+                        cases.append(fileformat_case(fmt, d, route != 'out', None, eo, route))
+    # ---- sessions
+    cases += directed_sessions()
     n_directed = len(cases)
+    for _ in range(env.n(40, 1500)):
+        cases.append(random_session(rng))
+    for i in range(env.n(30, 3000)):
+        fmt = ('json', 'yaml')[i % 2]
+        eo = rng.choice(ENCOPTS)
+        d = gen_doc(rng, fmt, rng.choice([1, 2, 3]), top=True)
+        ei, eo_ = I.enc_in_out(eo)
+        if any(has_char_outside(d, e) or has_char_outside(CTXV['ku'], e) for e in (ei, eo_)):
+            d = rng.choice(ENC_DOCS[:1])
+        cases.append(fileformat_case(fmt, d, True, None, eo, rng.choice(ROUTES)))
     # ---- random
     n_rand = env.n(260, 26000)
     for i in range(n_rand):
@@ -751,7 +1183,15 @@ def run(env, res):
                 'each through write->fetch (key/root/empty key/string input/whole context), the file context parser and '
                 'fileformat (in place / out), x json|yaml|toml x encodings; random: nested payloads of depth <= 4; '
                 'JSON printer vs json.dumps byte-for-byte and parser vs json.loads on printed/re-spaced/escaped/'
-                'corrupted texts. non-trivial = every case (distinct canonical input)')
+                'corrupted texts. Encoding family: fileformat{json,yaml} x 12 combinations of encoding/encodingIn/'
+                "encodingOut x route {no out, out another file, out equal to in, out ''} x non-ASCII documents: the target "
+                'must decode with the OUT encoding and parse to the formatted source. Sessions (one process each): directed - '
+                'every source file with %YAML 1.1 / %YAML 1.2 / %TAG directives, tags, anchors read by fetchyaml / the yamlfile '
+                'parser / fileformatyaml (alone, first or last of an `in` list, in place / to an out dir), followed by write->'
+                'fetch and write->parser round trips of YAML-1.1 look-alike strings (yes/no/on/off/y/n, 12:30:00, 0777, ...) '
+                'as values and keys; 1.1/1.2 interleavings; json and toml sessions; formats interleaved; random sessions of '
+                '2-4 operations. Every operation is also run alone in a fresh process. non-trivial = every case (distinct '
+                'canonical input)')
     cases, n_directed = build_cases(env)
     res.extra['directed_cases'] = n_directed
     recs = run_all(env, cases, env.n(6, 14))
@@ -769,7 +1209,8 @@ def replay(env, res, payload):
     d = tempfile.mkdtemp(prefix='verif-c16-')
     os.chdir(d)
     try:
-        absorb(res, run_case(env.driver, case))
+        absorb(res, guarded_case(env.driver, case))
     finally:
+        _close_zygote()
         os.chdir(cwd)
         shutil.rmtree(d, ignore_errors=True)
